@@ -284,6 +284,35 @@ pub fn files(u: &Ufo) -> Vec<(String, Option<(Vec<u8>, String)>)> {
     v
 }
 
+/// damage to a whole entry (a top-level file, the data / images directory, a layer directory)
+#[derive(Clone, Copy, Debug, PartialEq)]
+pub enum Damage {
+    PlainFile,   // a directory replaced by a plain file
+    Dangling,    // replaced by a symbolic link to nothing
+    Loop,        // replaced by a symbolic link to itself
+    LinkToFile,  // replaced by a symbolic link to a file
+    AsDirectory, // a file replaced by a directory
+}
+pub fn apply_damage(root: &Path, entry: &str, d: Damage) {
+    let p = root.join(entry);
+    if p.is_dir() && !p.is_symlink() {
+        let _ = std::fs::remove_dir_all(&p);
+    } else {
+        let _ = std::fs::remove_file(&p);
+    }
+    let name = p.file_name().unwrap().to_string_lossy().to_string();
+    match d {
+        Damage::PlainFile => std::fs::write(&p, GARBAGE).unwrap(),
+        Damage::Dangling => std::os::unix::fs::symlink("no-such-entry", &p).unwrap(),
+        Damage::Loop => std::os::unix::fs::symlink(&name, &p).unwrap(),
+        Damage::LinkToFile => std::os::unix::fs::symlink("metainfo.plist", &p).unwrap(),
+        Damage::AsDirectory => {
+            std::fs::create_dir_all(p.join("inside")).unwrap();
+            std::fs::write(p.join("inside/x"), b"x").unwrap();
+        }
+    }
+}
+
 pub fn write_ufo(root: &Path, u: &Ufo, garbage: &[String], removed: &[String]) {
     let _ = std::fs::remove_dir_all(root);
     std::fs::create_dir_all(root).unwrap();
@@ -678,7 +707,56 @@ pub fn main(a: &Args) {
                         garbage.push(p.clone());
                     }
                 }
+                // ... and whole entries of un-requested parts replaced: a directory by a plain file or
+                // a link (dangling, loop, to a file), a plist by a directory or a link
+                let all_files = files(&u);
+                let mut entries: Vec<(String, bool)> = vec![]; // (entry, is a directory)
+                for (name, bit) in [("lib.plist", 1u32), ("groups.plist", 2), ("kerning.plist", 4), ("features.fea", 8)] {
+                    if mask & bit == 0 && all_files.iter().any(|(p, _)| p == name) {
+                        entries.push((name.to_string(), false));
+                    }
+                }
+                for (name, bit) in [("data", 16u32), ("images", 32)] {
+                    if mask & bit == 0 && all_files.iter().any(|(p, c)| p == name && c.is_none()) {
+                        entries.push((name.to_string(), true));
+                    }
+                }
+                for l in &u.layers {
+                    if !selected(&q, &l.name, &l.written) && !l.dir.contains('/') && u.layers.iter().filter(|x| x.dir == l.dir).count() == 1 {
+                        entries.push((l.dir.clone(), true));
+                    }
+                }
+                let mut dirs_made: Vec<String> = vec![];
+                let mut damage: Vec<(String, Damage)> = vec![];
+                for (e, is_dir) in entries {
+                    if !r.chance(1, 2) {
+                        continue;
+                    }
+                    let d = if is_dir {
+                        *r.pick(&[Damage::PlainFile, Damage::Dangling, Damage::Loop, Damage::LinkToFile])
+                    } else {
+                        *r.pick(&[Damage::AsDirectory, Damage::Dangling, Damage::Loop])
+                    };
+                    let below: Vec<String> = all_files.iter().map(|(p, _)| p.clone()).filter(|p| p.starts_with(&format!("{}/", e))).collect();
+                    garbage.retain(|p| *p != e && !below.contains(p));
+                    removed.retain(|p| *p != e && !below.contains(p));
+                    match d {
+                        Damage::PlainFile | Damage::LinkToFile => {
+                            garbage.push(e.clone());
+                            removed.extend(below);
+                        }
+                        Damage::Dangling | Damage::Loop => {
+                            removed.push(e.clone());
+                            removed.extend(below);
+                        }
+                        Damage::AsDirectory => dirs_made.push(e.clone()),
+                    }
+                    damage.push((e, d));
+                }
                 write_ufo(&root, &u, &garbage, &removed);
+                for (e, d) in &damage {
+                    apply_damage(&root, e, *d);
+                }
                 let (g2, s2, f2) = observe(&root, &q);
                 let mut why: Vec<String> = vec![];
                 if let Some(full) = &full {
@@ -715,8 +793,8 @@ pub fn main(a: &Args) {
                         }
                     }
                 }
-                let _ = writeln!(cases, "{}\tpristine\tLCase m{} {} [] [] {}", row_no, ui, greq(&q), g1);
-                let _ = writeln!(cases, "{}\tunrequested-corrupted\tLCase m{} {} {} {} {}", row_no, ui, greq(&q), glist_paths(&garbage), glist_paths(&removed), g2);
+                let _ = writeln!(cases, "{}\tpristine\tLCase m{} {} [] [] [] {}", row_no, ui, greq(&q), g1);
+                let _ = writeln!(cases, "{}\tunrequested-corrupted\tLCase m{} {} {} {} {} {}", row_no, ui, greq(&q), glist_paths(&garbage), glist_paths(&dirs_made), glist_paths(&removed), g2);
                 // 3. sometimes: one REQUESTED file damaged (model and implementation must fail alike)
                 let mut s3 = String::from("-");
                 if r.chance(1, 3) {
@@ -728,13 +806,13 @@ pub fn main(a: &Args) {
                         write_ufo(&root, &u, &gb, &rm);
                         let (g3, st3, _) = observe(&root, &q);
                         s3 = format!("{} ({} {})", st3, if rm.is_empty() { "garbage in" } else { "removed" }, victim);
-                        let _ = writeln!(cases, "{}\trequested-damaged\tLCase m{} {} {} {} {}", row_no, ui, greq(&q), glist_paths(&gb), glist_paths(&rm), g3);
+                        let _ = writeln!(cases, "{}\trequested-damaged\tLCase m{} {} {} [] {} {}", row_no, ui, greq(&q), glist_paths(&gb), glist_paths(&rm), g3);
                     }
                 }
                 row_no += 1;
                 let _ = writeln!(
                     json,
-                    "{{\"case\":{},\"ufo\":{},\"must_be_rejected\":{},\"mask\":{},\"shape\":{},\"pristine\":{},\"corrupted\":{},\"damaged\":{},\"n_unrequested\":{},\"full_ok\":{},\"oracle_ok\":{},\"why\":{}}}",
+                    "{{\"case\":{},\"ufo\":{},\"must_be_rejected\":{},\"mask\":{},\"shape\":{},\"pristine\":{},\"corrupted\":{},\"damaged\":{},\"entry_damage\":{},\"n_unrequested\":{},\"full_ok\":{},\"oracle_ok\":{},\"why\":{}}}",
                     this,
                     ui,
                     class_f23(&u),
@@ -743,6 +821,7 @@ pub fn main(a: &Args) {
                     json_str(&s1),
                     json_str(&s2),
                     json_str(&s3),
+                    json_str(&format!("{:?}", damage)),
                     un.len(),
                     full.is_some(),
                     why.is_empty(),
